@@ -105,13 +105,16 @@ pub fn f7_tw_same<const M: usize, const TRY: bool>() {
 // chunk, the initialiser fails, a follow-up request of the same layout must be served
 // without the global allocator.
 // ---------------------------------------------------------------------------
-pub fn f7_tw_newchunk<const M: usize, const TRY: bool>() {
+pub fn f7_tw_newchunk<const M: usize, const TRY: bool, const MASK: u8>() {
     unsafe {
         drops_reset();
         calls_reset();
         // the first candidate (twice the current chunk) is refused, so that the chunk obtained is the
         // smallest one that holds the value: an exact fit
-        pool_reset(1);
+        // (symbolic: whether the first, doubled candidate is refused; which sizes the candidates have
+        // is the crate's tuning, not a property, so nothing below depends on them)
+        // (concrete per instance: a symbolic mask here ran out of memory)
+        pool_reset(MASK);
         super::f6::CHUNK_ALIGN_OVERRIDE = 16;
         DISPLACE = 1;
         let cur = super::f6::build_list_at::<M, 1>(16); // 16 bytes free in a 448-byte chunk
@@ -141,7 +144,8 @@ pub fn f7_tw_newchunk<const M: usize, const TRY: bool>() {
                 vassert!(CALLS == 1 && e.0 == code && DROPS[3] == 0, "NEVER: [C11] error not delivered intact exactly once");
                 drop(e);
                 vassert!(DROPS[3] == 1, "NEVER: [C11] error value not delivered exactly once");
-                vassert!(NREC == 2 && LEDGER[1].size == 448 + FOOTER_SIZE, "NEVER: [C11] expected exactly one new, exactly fitting chunk for the Result slot");
+                vassert!(NREC == 2, "NEVER: [C11] expected exactly one new chunk for the Result slot");
+                kani::cover!(LEDGER[1].size == 448 + FOOTER_SIZE, "INFO: the new chunk fits the Result slot exactly");
                 vassert!(NFREE == 0 && ledger_live_count() == 2, "NEVER: [C03] a chunk was given back to the global allocator by a &self operation (outside reset/drop)");
                 // (before the follow-up request: a request that reaches the allocator ends the path)
                 vassert!(bump.allocated_bytes_including_metadata() == ledger_live_bytes(), "NEVER: [C03,C08] after a failed initialiser the arena's accounting differs from the blocks it holds (chunk unlinked but not released?)");
@@ -153,7 +157,12 @@ pub fn f7_tw_newchunk<const M: usize, const TRY: bool>() {
                 vassert!(bump.allocated_bytes_including_metadata() == ledger_live_bytes(), "NEVER: [C08] accounting != bytes held");
                 kani::cover!(true, "REACH: failed initialiser after a new chunk");
             }
-            _ => {
+            Err(None) => {
+                // the global allocator refused what the arena asked for: nothing to claim here
+                vassert!(CALLS == 0, "NEVER: [C11] initialiser ran although space could not be reserved");
+                kani::cover!(true, "INFO: allocation refused");
+            }
+            Ok(()) => {
                 vassert!(false, "NEVER: [C11] failing initialiser did not produce Err(Init)");
             }
         }
@@ -669,8 +678,9 @@ f7null!(f7_tw_same_try_m8, 6, f7_tw_same::<8, true>());
 f7null!(f7_tw_same_try_m16, 6, f7_tw_same::<16, true>());
 f7cut!(f7_tw_same_inf_m1, 6, f7_tw_same::<1, false>());
 f7cut!(f7_tw_same_inf_m16, 6, f7_tw_same::<16, false>());
-f7pool!(f7_tw_newchunk_try_m8, 5, f7_tw_newchunk::<8, true>());
-f7pool!(f7_tw_newchunk_inf_m16, 5, f7_tw_newchunk::<16, false>());
+f7pool!(f7_tw_newchunk_try_m8, 5, f7_tw_newchunk::<8, true, 1>());
+f7pool!(f7_tw_newchunk_inf_m16, 5, f7_tw_newchunk::<16, false, 1>());
+f7pool!(f7_tw_newchunk_inf_m16_first, 5, f7_tw_newchunk::<16, false, 0>());
 f7pool!(f7_tw_newchunk_nested_inf_m16, 8, f7_tw_newchunk_nested::<16, false>());
 f7pool!(f7_tw_newchunk_nested_try_m4, 8, f7_tw_newchunk_nested::<4, true>());
 f7pool!(f7_try_fill_newchunk_m4, 8, f7_try_fill_newchunk::<4>());
